@@ -1394,11 +1394,11 @@ class Engine:
             nul, vs = {}, {}
             for q, v in S.nul.items():
                 r = _root(q)
-                if r in roots and q != r and v[0] in ('NN', 'NULL'):
+                if r in roots and v[0] in ('NN', 'NULL'):
                     nul[(roots[r], q[len(r):])] = v[0]
             for q, f in S.vs.items():
                 r = _root(q)
-                if r in roots and q != r and f[0] == 'in' and all(isinstance(x, (str, int)) for x in f[1]) and '#' not in q:
+                if r in roots and f[0] == 'in' and all(isinstance(x, (str, int)) for x in f[1]) and '#' not in q:
                     vs[(roots[r], q[len(r):])] = f
             return (frozenset(nul.items()), frozenset(vs.items()))
         groups = {'T': set(), 'F': set(), 'A': set()}
